@@ -78,6 +78,11 @@ func c10Gen(r *driver.Rand, thorough bool) *driver.Plan {
 		n = r.Intn(par + 1) // shorter than the worker count, incl. empty
 	}
 	n = min(n, c10MaxN(mon))
+	if r.Chance(1, 20) {
+		// very many workers, few elements: any fixed internal bound on workers
+		par = driver.Pick(r, 65, 129, 200, 257, 1025)
+		n = min(n, 6)
+	}
 	p := c10Plan(r, mon, par, n)
 	if r.Chance(1, 6) {
 		// long inputs with plain random values: hand-over or batching
